@@ -295,19 +295,32 @@ Definition runnable (w : wstate) (a : addr) : option rtask :=
       if existsb (fun b => mem_addr b (w_cancelled w)) (t_crumbs (rt_task rt)) then None else Some rt
   end.
 
-Fixpoint sel_ready (w : wstate) (ready : list addr) (lab : list label)
-  : option rtask * list addr * list label :=
+(* The second skip test of _get_next_ready_task (a breadcrumb is cancelled).  Since /repo 5dfab15 the task is
+   forgotten (`task.cancel(); self._tasks.pop(addr)`): [f8 = true].  [f8 = false] is the code before that commit, which
+   left the entry in _tasks for ever (D8).  The first test (`addr in cancelled or addr not in _tasks`) removes nothing. *)
+Definition crumb_dead (w : wstate) (a : addr) : bool :=
+  negb (mem_addr a (w_cancelled w)) &&
+  match lookup_t a (w_tasks w) with
+  | Some rt => existsb (fun b => mem_addr b (w_cancelled w)) (t_crumbs (rt_task rt))
+  | None => false
+  end.
+Definition forget (f8 : bool) (w : wstate) (a : addr) : wstate :=
+  if f8 && crumb_dead w a then set_tasks (remove_t a (w_tasks w)) w else w.
+
+Fixpoint sel_ready (f8 : bool) (w : wstate) (ready : list addr) (lab : list label)
+  : option rtask * wstate * list addr * list label :=
   match ready with
-  | [] => (None, [], lab)
+  | [] => (None, w, [], lab)
   | a :: r =>
       match runnable w a with
-      | Some rt => (Some rt, r, lab)
-      | None => sel_ready w r (lab ++ [LSkip (w_id w) a (option_map rt_task (lookup_t a (w_tasks w)))])
+      | Some rt => (Some rt, w, r, lab)
+      | None => sel_ready f8 (forget f8 w a) r
+                  (lab ++ [LSkip (w_id w) a (option_map rt_task (lookup_t a (w_tasks w)))])
       end
   end.
 
 (* ready queue is empty: start delayed tasks (LIFO) until one is runnable.  rdel = reversed _delayed_tasks *)
-Fixpoint sel_delayed (w : wstate) (rdel : list task) (lab : list label)
+Fixpoint sel_delayed (f8 : bool) (w : wstate) (rdel : list task) (lab : list label)
   : option rtask * wstate * list label :=
   match rdel with
   | [] => (None, set_delayed [] w, lab)
@@ -315,16 +328,16 @@ Fixpoint sel_delayed (w : wstate) (rdel : list task) (lab : list label)
       let w1 := set_tasks (put_t (t_addr t) (fresh_rt t) (w_tasks w)) w in
       match runnable w1 (t_addr t) with
       | Some rt => (Some rt, set_delayed (rev rest) w1, lab)
-      | None => sel_delayed w1 rest (lab ++ [LSkip (w_id w) (t_addr t) (Some t)])
+      | None => sel_delayed f8 (forget f8 w1 (t_addr t)) rest (lab ++ [LSkip (w_id w) (t_addr t) (Some t)])
       end
   end.
 
 (* result: selected task (None = blocked, WAITING sent), state with queue/delayed/tasks updated *)
-Definition select (w : wstate) : option rtask * wstate * list msg * list label :=
-  match sel_ready w (w_ready w) [] with
-  | (Some rt, r, lab) => (Some rt, set_blocked false (set_ready r w), [], lab)
-  | (None, _, lab) =>
-      match sel_delayed (set_ready [] w) (rev (w_delayed w)) lab with
+Definition select (f8 : bool) (w : wstate) : option rtask * wstate * list msg * list label :=
+  match sel_ready f8 w (w_ready w) [] with
+  | (Some rt, w', r, lab) => (Some rt, set_blocked false (set_ready r w'), [], lab)
+  | (None, w', _, lab) =>
+      match sel_delayed f8 (set_ready [] w') (rev (w_delayed w')) lab with
       | (Some rt, w1, lab1) => (Some rt, set_blocked false w1, [], lab1)
       | (None, w1, lab1) => (None, set_blocked true w1, [MWaiting], lab1)
       end
@@ -491,6 +504,7 @@ Fixpoint completion_loop_copy (wid : nat) (l : list nat) (s : cst) : option cst 
    the current tree); the theorems hold for both. *)
 Section Fix.
 Variable fx : bool.
+Variable f8 : bool.
 
 Definition completion (wid : nat) (s : cst) : option cst :=
   if fx then completion_loop_copy wid (rt_owned (c_rt s)) s
@@ -511,7 +525,7 @@ Definition raise_path (w : wstate) (rt : rtask) (kind : nat) (out : list msg) (l
 (* one call of _try_step_next_ready_task.  Result None = the worker loop itself crashes (exception escapes). *)
 Definition wstep (P : progs) (w0 : wstate) : option (wstate * list msg * list label) :=
   if w_blocked w0 && (match w_ready w0 with [] => true | _ => false end) then None else
-  match select w0 with
+  match select f8 w0 with
   | (None, w, out, lab) => Some (w, out, lab)
   | (Some rt0, w, out, lab) =>
     let wid := w_id w in
